@@ -34,6 +34,7 @@ struct GroupShared
   std::vector<Eigen::Matrix<double, 6, 1>> a6;
   std::vector<Eigen::Matrix<double, 10, 1>> a10;
   std::vector<Eigen::Vector3d> a3;
+  double mapbuf[7];  // SE3 coefficients in caller-owned memory, read through Map views by every thread
 };
 void * group_make()
 {
@@ -57,6 +58,7 @@ void * group_make()
     x.part<2>() = s->se2.back();
     s->bdl.push_back(x);
   }
+  for (int k = 0; k < 7; ++k) s->mapbuf[k] = s->se3[1].coeffs()(k);
   // small-angle tangent: the Taylor branches
   s->a3.push_back(Eigen::Vector3d(1e-6, -2e-6, 1e-6));
   s->a6.push_back((Eigen::Matrix<double, 6, 1>() << 1, 2, 3, 1e-6, -2e-6, 1e-6).finished());
@@ -66,6 +68,21 @@ void group_op(const void * p, int t, std::vector<double> & out)
 {
   const auto * s = static_cast<const GroupShared *>(p);
   const size_t i = size_t(t) % 3, j = size_t(t + 1) % 3;
+  {
+    // the free-function interface on views over shared memory (mutable and const view types; the threads only read)
+    const Map<SE3d> m(const_cast<double *>(s->mapbuf));
+    const Map<const SE3d> cm(s->mapbuf);
+    put(out, smooth::composition(m, s->se3[i]).coeffs());
+    put(out, smooth::composition(m, s->se3[i], s->se3[j]).coeffs());
+    put(out, smooth::composition(m, s->se3[j], cm, s->se3[i]).coeffs());
+    put(out, smooth::composition(cm, s->se3[i]).coeffs());
+    put(out, smooth::inverse(m).coeffs());
+    put(out, smooth::log(cm));
+    put(out, smooth::Ad(m));
+    put(out, smooth::rplus(m, s->a6[j]).coeffs());
+    put(out, cm - s->se3[j]);
+    put(out, (m * cm).coeffs());
+  }
   put(out, (s->so3[i] * s->so3[j]).coeffs());
   put(out, s->so3[i].inverse().coeffs());
   put(out, s->so3[j].log());
